@@ -142,7 +142,7 @@ def pad4(b):
 
 def sctp_param(rnd, vlen=None, ptype=None):
     vlen = rnd.choice([0, 1, 2, 3, 4, 5, 8, 13]) if vlen is None else vlen
-    ptype = rnd.randrange(65536) if ptype is None else ptype
+    ptype = (rnd.choice([0x8005, 0x8005, 0x8008, 0xC000, 1, 5, 7, 9, 11]) if rnd.random() < 0.25 else rnd.randrange(65536)) if ptype is None else ptype     # incl. RFC 4820 padding
     v = rnd.randbytes(vlen)
     raw = struct.pack('!HH', ptype, 4 + vlen) + v
     return pad4(raw), dict(ptype=ptype, plen=4 + vlen, value=v, padding=(4 - (4 + vlen) % 4) % 4)
@@ -296,7 +296,7 @@ def sctp_large(rnd, kind=None, jumbo_len=None, ppid=None):
         return sctp(rnd, chunks=[(raw, st)])
     if kind == 'bigparam':
         # one parameter whose 16-bit length has its top bit set (32768 bytes or more)
-        p_ = sctp_param(rnd, vlen=rnd.choice([32764, 32765, 40000, 65000]))
+        p_ = sctp_param(rnd, vlen=rnd.choice([32764, 32765, 40000, 65000, 8185, 8186, 8188, 8191, 16380, 16383]))
         ctype = rnd.choice([4, 5, 9])
         flags = rnd.randrange(256)
         raw = struct.pack('!BBH', ctype, flags, 4 + len(p_[0])) + p_[0]
@@ -316,7 +316,7 @@ def sctp_large(rnd, kind=None, jumbo_len=None, ppid=None):
         raw = struct.pack('!BBH', 0, flags, clen) + body + data
         st = dict(ctype=0, flags=flags, tsn=body[0:4], sid=body[4:6], ssn=body[6:8], ppid=body[8:12], data=data, clen=clen, padding=(4 - clen % 4) % 4)
         return sctp(rnd, chunks=[(pad4(raw), st)])
-    ngap, ndup = rnd.choice([9, 40, 300]), rnd.choice([8, 64])
+    ngap, ndup = rnd.choice([9, 40, 300, 256, 257]), rnd.choice([8, 64, 255, 256, 300, 513])
     body = rnd.randbytes(8) + struct.pack('!HH', ngap, ndup)
     gaps = [rnd.randbytes(4) for _ in range(ngap)]
     dups = [rnd.randbytes(4) for _ in range(ndup)]
